@@ -1,5 +1,86 @@
 import ZoektModel.Basic.Proto
+import ZoektModel.C36.Spec
 namespace ZoektModel.C36
-/-- stub: no model driver for C36 yet -/
-def main : IO Unit := ZoektModel.Proto.runLines (fun _ => ZoektModel.Proto.badCase "no model driver for C36")
+open ZoektModel ZoektModel.Proto
+
+def toStr (b : List UInt8) : Str := b.map (·.toNat)
+def showStr (s : Str) : String := bytesToHex (s.map UInt8.ofNat)
+
+/-! ops
+  `esc <chain> <payloadHex>`   impl = hex of what the real html/template wrote for the payload at a place of that chain
+                               model = hex of `chain.apply payload`; SPECFAIL when the implementation's text is not safe there
+  `occ <payloadHex,…>`          impl = hex of a sentinel-delimited piece of text cut out of a real page, which was rendered
+                               with the payload (sentinels included) in some data field; model = that same hex when it is the
+                               output of one of the modelled chains (else `unmodelled`); SPECFAIL when it is no such output
+                               or is not safe at that chain's place
+-/
+/-! `fmt <lineLen> <off:len,…|-> <nameLen> <subLen>`: impl = `panic` or `ok <pre:match:post;…|->` (lengths of the displayed
+    pieces of the line match); the model predicts the same; SPECFAIL when a well-formed line match (sorted, disjoint,
+    in-range fragments) is not formatted into pieces that tile the line. -/
+
+def parseFrags (s : String) : Option (List Frag) :=
+  if s == "-" then some [] else
+  (s.splitOn ",").mapM fun e =>
+    match e.splitOn ":" with
+    | [a, b] => do pure ⟨← a.toInt?, ← b.toInt?⟩
+    | _ => none
+
+def showPieces (ps : List Piece) : String :=
+  if ps.isEmpty then "-" else ";".intercalate (ps.map fun p => s!"{p.lo - p.preLo}:{p.hi - p.lo}:{p.postHi - p.hi}")
+
+/-- rebuild pieces from the lengths the implementation produced, laid end to end -/
+def piecesOfLengths : Nat → List (Nat × Nat × Nat) → List Piece
+  | _, [] => []
+  | pos, (a, b, c) :: rest => ⟨pos, pos + a, pos + a + b, pos + a + b + c⟩ :: piecesOfLengths (pos + a + b) rest
+
+def parseLengths (s : String) : Option (List (Nat × Nat × Nat)) :=
+  if s == "-" then some [] else
+  (s.splitOn ";").mapM fun e =>
+    match e.splitOn ":" with
+    | [a, b, c] => do pure (← a.toNat?, ← b.toNat?, ← c.toNat?)
+    | _ => none
+
+def handleFmt (n : Nat) (frags : List Frag) (nameLen subLen : Nat) (impl : String) : String :=
+  let model :=
+    if !subPathOk nameLen subLen then "panic" else
+    match formatLine n frags with
+    | none => "panic"
+    | some ps => "ok " ++ showPieces ps
+  let implOut : Option (Option (List Piece)) :=
+    if impl == "panic" then some none
+    else if impl.startsWith "ok " then (parseLengths (impl.drop 3).toString).map fun l => some (piecesOfLengths 0 l)
+    else none
+  match implOut with
+  | none => badCase "fmt impl"
+  | some out =>
+    if subPathOk nameLen subLen && !checkFormat n frags out then specFail model "well-formed-result-not-rendered"
+    else answer model
+
+def handle (line : String) : String :=
+  let (inp, impl) := splitCase line
+  match fields inp with
+  | ["esc", ch, p] =>
+    match Chain.ofName? ch, hexToBytes? p, hexToBytes? impl with
+    | some c, some payload, some out =>
+      let model := showStr (c.apply (toStr payload))
+      if checkP c (toStr out) then answer model else specFail model ("not-safe-in-" ++ c.name)
+    | _, _, _ => badCase "esc fields"
+  | ["occ", ps] =>
+    match (ps.splitOn ",").mapM hexToBytes?, hexToBytes? impl with
+    | some payloads, some occ =>
+      let cands := payloads.map toStr
+      if occurrenceOkAny cands (toStr occ) then answer impl
+      else
+        -- not the output of any modelled chain, or such an output but not safe (cannot happen if the theorems hold)
+        match Chain.all.find? fun c => cands.any fun p => c.apply p == toStr occ with
+        | some c => specFail impl ("not-safe-in-" ++ c.name)
+        | none => specFail "unmodelled" "value-not-escaped-by-a-modelled-chain"
+    | _, _ => badCase "occ fields"
+  | ["fmt", n, fr, nl, sl] =>
+    match n.toNat?, parseFrags fr, nl.toNat?, sl.toNat? with
+    | some n, some frags, some nameLen, some subLen => handleFmt n frags nameLen subLen impl
+    | _, _, _, _ => badCase "fmt fields"
+  | _ => badCase "op"
+
+def main : IO Unit := runLines handle
 end ZoektModel.C36
